@@ -404,6 +404,7 @@ def op_add(step, ctx):
         item = getattr(lf, 'add_' + cls)(name, **kw)
         ctx['objs'][step['ref']] = item
         ctx['oids'][step['ref']] = oid
+        ctx['created'].append(item)
         ev['outcome'] = 'ok'
         orr = item.origin_reference
         ev['proj'] = {'copy': int(item.copy_number), 'origin': -1 if orr is None else int(orr),
@@ -419,12 +420,15 @@ def op_add(step, ctx):
 def op_set(step, ctx):
     """Later assignment: item.<attr>.value = v  /  item.<attr>.units = u  /  item.origin_reference = n."""
     ev = {'op': 'set', 'oid': ctx['oids'].get(step['obj'], 0), 'part': step['part'], 'label': [], 'val': [],
-          'units': [], 'origin': -1}
+          'units': [], 'origin': -1, 'name': [], 'judge': True}
     try:
         item = ctx['objs'][step['obj']]
         if step['part'] == 'origin_reference':
             ev['origin'] = step['v']
             item.origin_reference = step['v']
+        elif step['part'] == 'name':
+            ev['name'] = cps(step['v'])
+            item.name = step['v']
         else:
             attr = getattr(item, step['attr'])
             ev['label'] = cps(attr.label)
@@ -717,7 +721,11 @@ def op_encode(step, ctx):
     return out
 
 
-OPS = {'lowwrite': op_lowwrite, 'new_file': op_new_file, 'add_lf': op_add_lf, 'add': op_add, 'set': op_set,
+def op_mark(step, ctx):
+    return [{'op': 'mark', 'what': step.get('what', ''), 'outcome': 'ok', 'hc': hc_flag()}]
+
+
+OPS = {'mark': op_mark, 'lowwrite': op_lowwrite, 'new_file': op_new_file, 'add_lf': op_add_lf, 'add': op_add, 'set': op_set,
        'nofmt_data': op_nofmt_data, 'hc_enter': op_hc, 'hc_exit': op_hc, 'hc_exit_exc': op_hc,
        'hc_decorated': op_hc_decorated, 'write': op_write, 'encode': op_encode}
 
@@ -732,7 +740,7 @@ def run_program(prog):
     events = []
     with tempfile.TemporaryDirectory(prefix='drv', dir=prog.get('_tmp') or None) as d:
         ctx = {'dir': d, 'objs': {}, 'oids': {}, 'files': {}, 'lfs': {}, 'lf_fid': {}, 'hc': [], 'arrays': {},
-               'prog': prog, 'next_oid': prog.get('_oid0', 1), 'fresh': prog.get('_fresh', False)}
+               'prog': prog, 'next_oid': prog.get('_oid0', 1), 'fresh': prog.get('_fresh', False), 'created': []}
         for step in prog['steps']:
             fn = OPS.get(step['op'])
             if fn is None:
@@ -740,6 +748,9 @@ def run_program(prog):
             evs = fn(step, ctx)
             for e in evs:
                 e['proc'] = prog.get('_proc', 1)
+                if prog.get('_track'):
+                    e['allproj'] = [[int(it.copy_number), -1 if it.origin_reference is None else int(it.origin_reference)]
+                                    for it in ctx['created']]
             events.extend(evs)
         while ctx['hc']:   # leave any context still open (scenario ended inside it)
             ctx['hc'].pop().__exit__(None, None, None)
@@ -767,6 +778,7 @@ def run_batch(programs, jobs=16, tmp=None):
         for k, pr in enumerate(procs):
             t = {'id': p['id'], 'steps': pr['steps'], 'arrays': p.get('arrays', {}), 'tz': p.get('tz'),
                  'np_seed': p.get('np_seed'), '_tmp': tmp, '_proc': k + 1, '_oid0': 1000 * k + 1,
+                 '_track': bool(p.get('meta', {}).get('track_proj')),
                  '_fresh': bool(pr.get('fresh'))}
             tasks.append(t)
             owner.append(pi)
